@@ -21,6 +21,7 @@ StdPrograms == <<
   <<"bin", "+", <<"bin", "-", L("1"), L("2")>>, <<"un", "-", <<"un", "!", Rf("f")>>>>>>,
   <<"call", "g", <<<<"tern", Rf("x"), <<"none">>, <<"bin", "=", Rf("x"), L("1")>>>>>>>>,
   <<"bin", "-", <<"un", "++", Rf("x")>>, <<"post", <<"un", "--", Rf("f")>>, "--">>>>,
+  <<"list", <<<<"map", <<>>>>, <<"call", "f", <<>>>>, <<"list", <<>>>>>>>>,      \* empty containers and a call without arguments
   Rf("f"), L("7"), <<"none">> >>
 \* trees far deeper than anything the parser's nesting budget (256) lets through in one construct: `x not in x not in ...` gives
 \* two levels per operator, and an ExprAST may be built directly; every node still gets its own descriptor
